@@ -57,6 +57,7 @@ class ModuleInfo:
         self.assigns: dict[str, ast.expr] = {}
         self.imports: dict[str, tuple] = {}   # local name -> ('module', dotted) | ('from', dotted, name, level)
         self.globals_cache: dict = {}
+        self.star_imports: list = []
         self._scan(self.tree.body)
 
     def __deepcopy__(self, memo):
@@ -84,6 +85,9 @@ class ModuleInfo:
                     self.imports[local] = ("module", al.name if al.asname else al.name.split(".")[0])
             elif isinstance(st, ast.ImportFrom):
                 for al in st.names:
+                    if al.name == "*":
+                        self.star_imports.append((st.module or "", st.level))
+                        continue
                     self.imports[al.asname or al.name] = ("from", st.module or "", al.name, st.level)
             elif isinstance(st, ast.If):
                 # `if TYPE_CHECKING:` imports are dropped (names used only in annotations); other module-level ifs
